@@ -38,17 +38,25 @@ func (c CounterStyle) resolveCounter(counterName string, previousTypes utils.Set
 	}
 
 	// Handle extends
+	// (the styles met here are not fallbacks: they may still be used as such)
+	extendedTypes := utils.NewSet(counterName)
 	for extends != "" {
 		if extendedCounter, has := c[system]; has {
+			extended := system
 			counter.System = extendedCounter.System
-			previousTypes.Add(system)
+			extendedTypes.Add(system)
 
 			extends, system = "", "symbolic"
 			if counter.System != (CounterStyleSystem{}) {
 				extends, system = counter.System.Extends, counter.System.System
 			}
 
-			if extends != "" && previousTypes.Has(system) {
+			if extends != "" && extendedTypes.Has(system) {
+				// The styles of a cycle extend "decimal" instead. A style that
+				// extends itself is the whole cycle: its other descriptors still apply.
+				if system == extended {
+					counter.merge(extendedCounter)
+				}
 				extends, system = "extends", "decimal"
 				continue
 			}
